@@ -267,10 +267,10 @@ class Gen:
 SCC_GOALS = [('true', 'cleanup-deterministic-exit'), ('fail', 'cleanup-failure'), ('throw(c12_b)', 'cleanup-exception'),
              ('c12_alt(g1, g2)', 'cleanup-exhaustion'), ('( c12_alt(g1, g2), fail )', 'cleanup-failure'), ('( c12_alt(g1, g2), throw(c12_b) )', 'cleanup-exception'),
              ('( c12_log(g1), c12_alt(g2, g3) )', 'cleanup-exhaustion')]
-SCC_CONTEXTS = [('%s', None), ('once(( %s ))', 'cleanup-cut'), ('( %s, fail )', None), ('catch(( %s ), _, c12_log(caught))', None),
-                ('( %s -> c12_log(then) ; c12_log(else) )', 'cleanup-cut'), ('\\+ ( %s )', 'cleanup-cut'),
+SCC_CONTEXTS = [('%s', None), ('once(( %s )), c12_log(after)', 'cleanup-cut'), ('( %s, fail )', None), ('catch(( %s ), _, c12_log(caught))', None),
+                ('( %s -> c12_log(then) ; c12_log(else) ), c12_log(after)', 'cleanup-cut'), ('( \\+ ( %s ) -> true ; true ), c12_log(after)', 'cleanup-cut'),
                 ('setup_call_cleanup(c12_log(s2), ( %s ), c12_log(c2))', 'cleanup-nested'), ('( %s, throw(c12_after) )', 'cleanup-exception'),
-                ('( %s, c12_log(after), ! ; c12_log(other) )', 'cleanup-cut')]
+                ('( %s, c12_log(before_cut), ! ; c12_log(other) )', 'cleanup-cut')]
 
 BUILTIN_ERRORS = ['atom_length(1, _)', 'atom_length(_, _)', 'atom_length(a, foo)', 'arg(a, f(x), _)', 'arg(_, f(x), _)', 'functor(_, _, _)', 'functor(_, foo, -1)',
                   'X is foo + 1', 'X is _ + 1', 'X is 1 / 0', 'X is 1 mod 0', 'X is "ab" + 1', 'atom_codes(_, _)', 'atom_chars(_, [a|_])', 'number_codes(X, "3x")',
@@ -283,6 +283,28 @@ BUILTIN_ERRORS = ['atom_length(1, _)', 'atom_length(_, _)', 'atom_length(a, foo)
                   'set_prolog_flag(no_such_flag, 1)', 'current_prolog_flag(1, _)', 'throw(_)', 'number_codes(X, [0\' , 0\'1 | _])', 'X is 2 ** -1, X < a']
 ISO_FORMALS = {'instantiation_error', 'type_error', 'domain_error', 'existence_error', 'permission_error', 'representation_error', 'evaluation_error',
                'resource_error', 'syntax_error', 'system_error', 'uninstantiation_error'}
+
+
+def judge_scc(rec, setup, q, o, g, gs, c, cs, body, compiled, ctext):
+    if True:
+        rec.case(cs or gs, (body,))
+        why = None
+        if o[0] != 'val':
+            why = 'run_' + o[0]
+        else:
+            trace = [] if o[1][2][1] == NIL else [x[1] for x in o[1][2][1][1] if x[0] == 'a']
+            for s_ev, c_ev in (('s1', 'c1'), ('s2', 'c2')):
+                if trace.count(c_ev) != trace.count(s_ev):
+                    why = 'cleanup_count_differs_from_setup_count'
+                elif s_ev in trace and trace.index(c_ev) < trace.index(s_ev):
+                    why = 'cleanup_before_setup'
+            if why is None and cs == 'cleanup-cut' and 'after' in trace and 'c1' in trace and trace.index('c1') > trace.index('after'):
+                why = 'cleanup_of_cut_goal_ran_after_the_cutting_construct_completed'
+            if why is None and 's1' in trace and gs == 'cleanup-deterministic-exit' and c == '%s' and trace != ['s1', 'c1']:
+                why = 'cleanup_after_deterministic_exit_misplaced'
+        if why:
+            rec.violation({'kind': why, 'goal_kind': gs, 'context': cs or 'plain', 'compiled': compiled}, {'goal': q, 'clause': ctext, 'observed': arith.show_obs(o)[:400],
+                                                                                      'jobs': setup + ([{'op': 'load', 'module': 'user', 'text': ctext}] if ctext else []) + [{'op': 'run', 'goal': q + ' .', 'limit': 2, 'pred': 'runr'}]})
 
 
 def shard(ctx):
@@ -312,24 +334,20 @@ def shard(ctx):
         if k % ctx.nshards != ctx.shard:
             continue
         body = c % ('setup_call_cleanup(c12_log(s1), %s, c12_log(c1))' % g)
-        q = 'c12_run(( %s ), R)' % body
-        o = arith.run_goal(w, q, var='R', timeout=30)
-        rec.case(cs or gs, (body,))
-        why = None
-        if o[0] != 'val':
-            why = 'run_' + o[0]
-        else:
-            trace = [] if o[1][2][1] == NIL else [x[1] for x in o[1][2][1][1] if x[0] == 'a']
-            for s_ev, c_ev in (('s1', 'c1'), ('s2', 'c2')):
-                if trace.count(c_ev) != trace.count(s_ev):
-                    why = 'cleanup_count_differs_from_setup_count'
-                elif s_ev in trace and trace.index(c_ev) < trace.index(s_ev):
-                    why = 'cleanup_before_setup'
-            if why is None and 's1' in trace and gs == 'cleanup-deterministic-exit' and c == '%s' and trace != ['s1', 'c1']:
-                why = 'cleanup_after_deterministic_exit_misplaced'
-        if why:
-            rec.violation({'kind': why, 'goal_kind': gs, 'context': cs or 'plain'}, {'goal': q, 'observed': arith.show_obs(o)[:400],
-                                                                                      'jobs': setup + [{'op': 'run', 'goal': q + ' .', 'limit': 2, 'pred': 'runr'}]})
+        for compiled in (False, True):
+          if compiled:
+            # the same body as a compiled clause (inline-compiled control constructs instead of call/1)
+            cname = 'c12_scc_%d_%d' % (ctx.shard, k)
+            ctext = '%s :- %s.\n' % (cname, body)
+            if not arith.load_clauses(rec, w, ctext):
+                continue
+            q = 'c12_run(%s, R)' % cname
+          else:
+            ctext = None
+            q = 'c12_run(( %s ), R)' % body
+          o = arith.run_goal(w, q, var='R', timeout=30)
+          judge_scc(rec, setup, q, o, g, gs, c, cs, body, compiled, ctext)
+
     # (a) catch/throw model
     seen = set()
     for i in range(ctx.params['n']):
